@@ -1,7 +1,7 @@
 (** C12 — errors are classified and located truthfully (partial: the rendered message and the
     classification of search errors are decided by correspondence).
     Statements only. *)
-From JP Require Import Base F64 Value Sig Functions Interp Lexer Parser Wire Proofs.CallProof Proofs.ErrProof Proofs.InterpFacts Proofs.ParseErrProof Proofs.SearchErrProof Render Proofs.RenderProof Proofs.PosProof.
+From JP Require Import Base F64 Value Sig Functions Interp Lexer Parser Wire Proofs.CallProof Proofs.ErrProof Proofs.InterpFacts Proofs.ParseErrProof Proofs.SearchErrProof Render Proofs.RenderProof Proofs.PosProof Proofs.AstPosProof.
 
 (** Every failure of compile is a parse error: the lexer (incl. the embedded JSON reader) and the parser only ever build parse errors. *)
 Theorem C12_compile_errors_are_parse_errors : forall s e, parse s = Err e -> exists p, e = EParse p.
@@ -41,6 +41,15 @@ Theorem C12_parse_error_coordinates : forall s p, parse s = Err (EParse p) ->
   exists pre suf, s = pre ++ suf /\ p = byte_len pre /\ line_col s p = (count_nl pre, last_line pre 0).
 Proof. exact compile_error_coordinates. Qed.
 Print Assumptions C12_parse_error_coordinates.
+
+(** Every offset stored in a compiled tree — the position of a call's opening parenthesis,
+    where its arity, type and unknown-function errors are reported (theorems below), and the
+    position recorded in a slice node, where an invalid slice is reported — is the byte
+    length of a prefix of the expression: runtime errors of calls and slices in a compiled
+    expression point into the expression, on a character boundary. *)
+Theorem C12_compiled_tree_offsets_on_character_boundaries : forall s t, parse s = Ok t -> aok (bnd s) t.
+Proof. exact compile_tree_offsets_on_boundaries. Qed.
+Print Assumptions C12_compiled_tree_offsets_on_character_boundaries.
 
 (** Arity and argument-type errors carry the context offset of the call ... *)
 Theorem C12_validate_error_offset : forall sg args off e, validate sg args off = Err e -> exists k, e = ERuntime k off.
